@@ -144,6 +144,11 @@ func prepare(repo, verifRoot string, race bool) (bin string, treeHash string, er
 	if err := installSingleflight(scratch); err != nil {
 		return "", "", err
 	}
+	// main.go cannot be imported (package main); a renamed copy, with "os" and x/term replaced
+	// by shims, lets every frame travel through the real printRaw on its way to the terminal
+	if err := installMain(scratch); err != nil {
+		return "", "", err
+	}
 	// seam-integrity check + content hash
 	h := sha256.New()
 	var files []string
@@ -377,4 +382,57 @@ func installSingleflight(scratch string) error {
 		return infra("mkdir: %v", err)
 	}
 	return os.WriteFile(filepath.Join(dir, "singleflight.go"), rewritten, 0o644)
+}
+
+// installMain writes scratch/verifmain/main.go: the (already rewritten) main.go as package
+// verifmain, func main renamed Main, "os" -> simos and "golang.org/x/term" -> simterm, plus an
+// exported door to printRaw.
+func installMain(scratch string) error {
+	src, err := os.ReadFile(filepath.Join(scratch, "main.go"))
+	if err != nil {
+		return infra("main.go: %v", err)
+	}
+	fset := token.NewFileSet()
+	file, err := parser.ParseFile(fset, "main.go", src, parser.ParseComments)
+	if err != nil {
+		return infra("cannot parse main.go: %v", err)
+	}
+	file.Name = ast.NewIdent("verifmain")
+	repl := map[string][2]string{"os": {"os", "servitor/verifshim/simos"}, "golang.org/x/term": {"term", "servitor/verifshim/simterm"}}
+	for _, im := range file.Imports {
+		p, _ := strconv.Unquote(im.Path.Value)
+		if r, ok := repl[p]; ok {
+			im.Path.Value = strconv.Quote(r[1])
+			if im.Name == nil {
+				im.Name = ast.NewIdent(r[0])
+			}
+		}
+	}
+	hasPrintRaw := false
+	for _, d := range file.Decls {
+		if fd, ok := d.(*ast.FuncDecl); ok && fd.Recv == nil {
+			switch fd.Name.Name {
+			case "main":
+				fd.Name = ast.NewIdent("Main")
+			case "printRaw":
+				hasPrintRaw = true
+			}
+		}
+	}
+	if !hasPrintRaw {
+		return infra("main.go no longer has a function printRaw: the harness cannot route frames through the real terminal writer")
+	}
+	var buf bytes.Buffer
+	if err := format.Node(&buf, fset, file); err != nil {
+		return infra("format main.go: %v", err)
+	}
+	dir := filepath.Join(scratch, "verifmain")
+	if err := os.MkdirAll(dir, 0o755); err != nil {
+		return infra("verifmain: %v", err)
+	}
+	if err := os.WriteFile(filepath.Join(dir, "main.go"), buf.Bytes(), 0o644); err != nil {
+		return infra("verifmain: %v", err)
+	}
+	door := "package verifmain\n\n// PrintRaw is main.go's printRaw: the function ui.State is given as its output callback.\nfunc PrintRaw(output string) { printRaw(output) }\n"
+	return os.WriteFile(filepath.Join(dir, "zz_verif_door.go"), []byte(door), 0o644)
 }
